@@ -8,5 +8,7 @@ def run(ctx):
     # non-vacuity: first-value-wins breaks LastWins; numeric FT.SEARCH document names break Unambiguous
     accesscommon.negative(ctx, 'MC_neg_firstwins.cfg', 'LastWins')
     accesscommon.negative(ctx, 'MC_neg_ambiguous.cfg', 'Unambiguous')
+    # round 2: the unsigned conversion predicted through the signed one (ParseInt and a cast) breaks NumRanges
+    accesscommon.negative(ctx, 'MC_neg_u64viai64.cfg', 'NumRanges')
     r = accesscommon.generate(ctx, 'Gen_c16_%s.cfg' % tier)
     accesscommon.replay(ctx, r)
